@@ -238,23 +238,24 @@ def symN (t : Tables) (b : Nat) : Nat := ((symOf t b).getD 0).toNat
 /-- encoded content of the cell `(q, s)` -/
 def cellVal (t : Tables) (n q s : Nat) : Nat := encVal (t.dfa.getD (q * n + s) 0)
 
-structure ByteClasses (t : Tables) (sb : Array (List Nat)) (uni : Int) : Prop where
-  low : ∀ s b, b ∈ sb.getD s [] ↔ (b < 128 ∧ symN t b = s)
+/-- `cls b` is the symbol whose cells `Pack` ORs into row `b`. -/
+structure ByteClasses (cls : Nat → Nat) (sb : Array (List Nat)) (uni : Int) : Prop where
+  low : ∀ s b, b ∈ sb.getD s [] ↔ (b < 128 ∧ cls b = s)
   uni_nonneg : 0 ≤ uni
-  high : ∀ b, 128 ≤ b → b < 256 → symN t b = uni.toNat
+  high : ∀ b, 128 ≤ b → b < 256 → cls b = uni.toNat
 
-structure Inv (t : Tables) (n : Nat) (done : List (Nat × Nat)) (r : Scanner) : Prop where
+structure Inv (t : Tables) (n : Nat) (cls : Nat → Nat) (done : List (Nat × Nat)) (r : Scanner) : Prop where
   tsize : r.table.size = 256
   esize : r.onEoi.size = 11
   fld : ∀ b q, b < 256 → field q (r.table.getD b 0) =
-    if (q, symN t b) ∈ done then cellVal t n q (symN t b) else 0
+    if (q, cls b) ∈ done then cellVal t n q (cls b) else 0
   eoi : ∀ q, (q, 0) ∈ done → r.onEoi.getD q 0 = cellVal t n q 0 / 2 ∧ cellVal t n q 0 % 2 = 1
 
-theorem packCell_inv (t : Tables) (n : Nat) (sb : Array (List Nat)) (uni : Int)
-    (bc : ByteClasses t sb uni) (done : List (Nat × Nat)) (r r' : Scanner) (q s : Nat)
+theorem packCell_inv (t : Tables) (n : Nat) (cls : Nat → Nat) (sb : Array (List Nat)) (uni : Int)
+    (bc : ByteClasses cls sb uni) (done : List (Nat × Nat)) (r r' : Scanner) (q s : Nat)
     (hq : q ≤ 9) (hlt : ∀ x, t.dfa[q * n + s]? = some x → x ≤ 9)
-    (inv : Inv t n done r) (h : packCell t n sb uni r (q, s) = .ok r') :
-    Inv t n (done ++ [(q, s)]) r' := by
+    (inv : Inv t n cls done r) (h : packCell t n sb uni r (q, s) = .ok r') :
+    Inv t n cls (done ++ [(q, s)]) r' := by
   unfold packCell at h
   simp only at h
   cases hx : t.dfa[q * n + s]? with
@@ -284,7 +285,7 @@ theorem packCell_inv (t : Tables) (n : Nat) (sb : Array (List Nat)) (uni : Int)
       · simp only [hc, if_false] at h
         -- the new table, whichever branch
         have htab : ∀ b, b < 256 → r'.table.size = 256 ∧
-            r'.table.getD b 0 = if symN t b = s then r.table.getD b 0 ||| v <<< (q * 6) else r.table.getD b 0 := by
+            r'.table.getD b 0 = if cls b = s then r.table.getD b 0 ||| v <<< (q * 6) else r.table.getD b 0 := by
           intro b hb
           have h1 := orBytes_getD (sb.getD s []) (v <<< (q * 6)) r.table b (by rw [inv.tsize]; exact hb)
           have hs1 := orBytes_size (sb.getD s []) (v <<< (q * 6)) r.table
@@ -297,7 +298,7 @@ theorem packCell_inv (t : Tables) (n : Nat) (sb : Array (List Nat)) (uni : Int)
             by_cases hb128 : b < 128
             · simp only [bc.low s b, hb128, true_and]
             · have := bc.high b (by omega) hb
-              have hne : ¬ symN t b = s := by
+              have hne : ¬ cls b = s := by
                 intro h'; apply hu; rw [← h', this]; exact Int.toNat_of_nonneg bc.uni_nonneg
               simp only [bc.low s b, hb128, false_and, if_false, hne]
           · have hu' : (s : Int) = uni := by
@@ -314,7 +315,7 @@ theorem packCell_inv (t : Tables) (n : Nat) (sb : Array (List Nat)) (uni : Int)
               simp only [this, if_false, bc.low s b, hb128, true_and]
             · have hm : b ∈ List.range' 128 128 := by rw [List.mem_range'_1]; omega
               have := bc.high b (by omega) hb
-              have hs : symN t b = s := by rw [this, ← hu']; rfl
+              have hs : cls b = s := by rw [this, ← hu']; rfl
               simp only [hm, if_true, bc.low s b, hb128, false_and, if_false, hs]
         have heoi : r'.onEoi = if s = 0 then r.onEoi.setIfInBounds q (v % 256 / 2) else r.onEoi := by
           by_cases hu : (s : Int) ≠ uni
@@ -329,7 +330,7 @@ theorem packCell_inv (t : Tables) (n : Nat) (sb : Array (List Nat)) (uni : Int)
         · intro b q' hb
           rw [(htab b hb).2]
           have hold := inv.fld b q' hb
-          by_cases hsb : symN t b = s
+          by_cases hsb : cls b = s
           · simp only [hsb, if_true, field_or, field_shiftLeft q' q v hv64] at hold ⊢
             rw [hold]
             by_cases hqq : q' = q
@@ -341,7 +342,7 @@ theorem packCell_inv (t : Tables) (n : Nat) (sb : Array (List Nat)) (uni : Int)
               simp only [hqq, if_false, Nat.or_zero, List.mem_append, List.mem_singleton, this, or_false]
           · simp only [hsb, if_false]
             rw [hold]
-            have : ¬ ((q', symN t b) = (q, s)) := by
+            have : ¬ ((q', cls b) = (q, s)) := by
               intro h'; apply hsb; exact (Prod.mk.injEq _ _ _ _ ▸ h').2
             simp only [List.mem_append, List.mem_singleton, this, or_false]
         · intro q' hmem
@@ -405,7 +406,7 @@ theorem symN_eq_tgtN (t : Tables) (b : Nat) : symN t b = tgtN t (symIndex t b) :
   unfold symN tgtN symOf
   cases t.symbolMap[symIndex t (b : Int)]? <;> simp
 
-theorem inv_empty (t : Tables) (n : Nat) : Inv t n [] Scanner.empty := by
+theorem inv_empty (t : Tables) (n : Nat) (cls : Nat → Nat) : Inv t n cls [] Scanner.empty := by
   refine ⟨by simp [Scanner.empty], by simp [Scanner.empty], ?_, ?_⟩
   · intro b q hb
     have : Scanner.empty.table.getD b 0 = 0 := by
@@ -414,20 +415,25 @@ theorem inv_empty (t : Tables) (n : Nat) : Inv t n [] Scanner.empty := by
     rw [this, field_zero]; simp
   · intro q hq; simp at hq
 
-/-- What a successful `Pack` establishes (well-formed tables, guard constant at most 0x80). -/
-structure PackSpec (t : Tables) (s : Scanner) : Prop where
+/-- The symbol whose cells `Pack` ORs into row `b`: the segment reached by the walk for `b < 128`,
+the last segment for `b ≥ 128`. -/
+def packCls (t : Tables) (b : Nat) : Nat :=
+  if b < 128 then tgtN t (walk t (b + 1)) else tgtN t (t.symbolMap.size - 1)
+
+/-- What a successful `Pack` establishes on well-formed tables (no assumption on the guard). -/
+structure PackSpec (guard : Int) (t : Tables) (s : Scanner) : Prop where
   states_le : numStates t ≤ 10
   no_bt : t.backtrack.size = 0
   start0 : t.stateMap[0]? = some 0
+  last_le : ∀ e, t.symbolMap.back? = some e → e.start ≤ guard
   sym_lt : ∀ b : Nat, b < 256 → symIndex t (b : Int) < t.symbolMap.size
   fld : ∀ b q, b < 256 → q < numStates t →
-    field q (s.table.getD b 0) = cellVal t t.numSymbols.toNat q (symN t b)
+    field q (s.table.getD b 0) = cellVal t t.numSymbols.toNat q (packCls t b)
   eoi : ∀ q, q < numStates t →
     s.onEoi.getD q 0 = cellVal t t.numSymbols.toNat q 0 / 2 ∧ cellVal t t.numSymbols.toNat q 0 % 2 = 1
 
-theorem packWith_spec (guard : Int) (t : Tables) (s : Scanner)
-    (hg : guard ≤ 0x80 ∨ ∀ e, t.symbolMap.back? = some e → e.start ≤ 0x80) (w : WF t)
-    (h : packWith guard t = .ok s) : PackSpec t s := by
+theorem packWith_spec (guard : Int) (t : Tables) (s : Scanner) (w : WF t)
+    (h : packWith guard t = .ok s) : PackSpec guard t s := by
   unfold packWith at h
   have hns := w.ns_pos
   have hns0 : ¬ t.numSymbols = 0 := by omega
@@ -464,10 +470,6 @@ theorem packWith_spec (guard : Int) (t : Tables) (s : Scanner)
   rw [if_neg hgd] at h
   have hneg : ¬ t.numSymbols < 0 := by omega
   rw [if_neg hneg, Int.toNat_natCast] at h
-  have hl128 : last.start ≤ 0x80 := by
-    rcases hg with hg | hg
-    · omega
-    · exact hg last rfl
   -- the byte classes
   have hwk : ∀ k, ∃ hh : walk t (k + 1) < t.symbolMap.size,
       0 ≤ t.symbolMap[walk t (k + 1)].target ∧ t.symbolMap[walk t (k + 1)].target.toNat < n := by
@@ -479,51 +481,59 @@ theorem packWith_spec (guard : Int) (t : Tables) (s : Scanner)
   have hsb : symBytes t n = some sb0 := by unfold symBytes; rw [hfold]; rfl
   rw [hsb] at h
   simp only at h
-  have hhigh : ∀ b : Nat, 128 ≤ b → symIndex t (b : Int) = t.symbolMap.size - 1 := by
-    intro b hb
-    apply symIndex_eq t w _ _ hLlt
-    · right; rw [hlastE]; omega
-    · intro h1; omega
-  have bc : ByteClasses t sb0 last.target := by
+  have bc : ByteClasses (packCls t) sb0 last.target := by
     refine ⟨?_, by rw [← hlastE]; exact (w.targets _ hLlt).1, ?_⟩
     · intro s b
-      rw [hmem s b, symN_eq_tgtN, walk_eq_symIndex t w b]
+      rw [hmem s b]
+      unfold packCls
+      constructor
+      · rintro ⟨h1, h2⟩; exact ⟨h1, by rw [if_pos h1]; exact h2⟩
+      · rintro ⟨h1, h2⟩; rw [if_pos h1] at h2; exact ⟨h1, h2⟩
     · intro b hb _
-      rw [symN_eq_tgtN, hhigh b hb]
-      unfold tgtN
-      rw [Array.getElem?_eq_getElem hLlt, hlastE]; rfl
+      unfold packCls tgtN
+      rw [if_neg (by omega), Array.getElem?_eq_getElem hLlt, hlastE]; rfl
   have hS10 : t.dfa.size / n ≤ 10 := by omega
-  have hinv := foldlM_inv (packCell t n sb0 last.target) (Inv t n) (cells (t.dfa.size / n) n)
+  have hinv := foldlM_inv (packCell t n sb0 last.target) (Inv t n (packCls t)) (cells (t.dfa.size / n) n)
     (by
       intro d r a r' ha hi hf
       obtain ⟨q, s'⟩ := a
       rw [mem_cells] at ha
-      apply packCell_inv t n sb0 _ bc d r r' q s' (by omega) _ hi hf
+      apply packCell_inv t n (packCls t) sb0 _ bc d r r' q s' (by omega) _ hi hf
       intro x hx
       have hx' := Array.getElem?_eq_some_iff.mp hx
       obtain ⟨hlt, hxe⟩ := hx'
       have := w.dfa_lt _ hlt
       rw [hxe, hS] at this
       omega)
-    [] Scanner.empty s (inv_empty t n) h
+    [] Scanner.empty s (inv_empty t n (packCls t)) h
   simp only [List.nil_append] at hinv
-  have hsymlt : ∀ b, b < 256 → symN t b < n := by
+  have hsymlt : ∀ b, b < 256 → packCls t b < n := by
     intro b _
-    rw [symN_eq_tgtN, ← walk_eq_symIndex t w b]
-    obtain ⟨he, _, h2⟩ := hwk b
-    unfold tgtN
-    rw [Array.getElem?_eq_getElem he]; exact h2
-  refine ⟨by rw [hS]; exact hS10, by omega, ?_, ?_, ?_, ?_⟩
+    unfold packCls
+    split
+    · obtain ⟨he, _, h2⟩ := hwk b
+      unfold tgtN
+      rw [Array.getElem?_eq_getElem he]; exact h2
+    · unfold tgtN
+      rw [Array.getElem?_eq_getElem hLlt]
+      have := w.targets _ hLlt
+      simp only [Option.map_some, Option.getD_some]
+      omega
+  refine ⟨by rw [hS]; exact hS10, by omega, ?_, ?_, ?_, ?_, ?_⟩
   · by_cases h0 : t.stateMap[0]? = some 0
     · exact h0
     · exact absurd (Or.inr h0) hsm
+  · intro e he
+    rw [hb] at he
+    cases he
+    omega
   · intro b _
     obtain ⟨he, _, _⟩ := walk_spec t w b
     rw [← walk_eq_symIndex t w b]; exact he
   · intro b q hb hq
     rw [hS] at hq
     rw [hnn, hinv.fld b q hb]
-    have : (q, symN t b) ∈ cells (t.dfa.size / n) n := by rw [mem_cells]; exact ⟨hq, hsymlt b hb⟩
+    have : (q, packCls t b) ∈ cells (t.dfa.size / n) n := by rw [mem_cells]; exact ⟨hq, hsymlt b hb⟩
     simp only [this, if_true]
   · intro q hq
     rw [hS] at hq
@@ -531,6 +541,24 @@ theorem packWith_spec (guard : Int) (t : Tables) (s : Scanner)
     apply hinv.eoi q
     rw [mem_cells]; exact ⟨hq, hnpos⟩
 
+
+/-- When the last symbol-map entry starts at or below 0x80, `Pack` classifies every byte as `Scan` does. -/
+theorem packCls_eq_symN (t : Tables) (w : WF t)
+    (hl : ∀ e, t.symbolMap.back? = some e → e.start ≤ 0x80) (b : Nat) : packCls t b = symN t b := by
+  have hmne := w.map_ne
+  have hLlt : t.symbolMap.size - 1 < t.symbolMap.size := by omega
+  rw [symN_eq_tgtN]
+  unfold packCls
+  split
+  · rw [walk_eq_symIndex t w b]
+  · have hlast : t.symbolMap.back? = some (t.symbolMap[t.symbolMap.size - 1]) := by
+      rw [Array.back?_eq_getElem?, Array.getElem?_eq_getElem]
+    have := hl _ hlast
+    have : symIndex t (b : Int) = t.symbolMap.size - 1 := by
+      apply symIndex_eq t w _ _ hLlt
+      · right; omega
+      · intro h1; omega
+    rw [this]
 
 /-! ### the two scan loops -/
 
@@ -567,7 +595,8 @@ theorem encVal_nonneg (x : Int) (hx : ¬ x < 0) : encVal x = 6 * x.toNat := by
   omega
 
 /-- Simulation: the packed state is `6 * q` (mod 64) while the lexer is in state `q`. -/
-theorem scan_sim (t : Tables) (s : Scanner) (w : WF t) (ps : PackSpec t s) :
+theorem scan_sim (guard : Int) (t : Tables) (s : Scanner) (w : WF t) (ps : PackSpec guard t s)
+    (hcls : ∀ b, packCls t b = symN t b) :
     ∀ (input : List UInt8) (i st q : Nat), q < numStates t → st % 64 = 6 * q →
       LexTables.scanLoop t (input.map fun b => ((b.toNat : Int), 1)) i (q : Int) 0 0 =
         some ((s.fin (i + input.length) (s.scanLoop input i st)).1,
@@ -643,6 +672,7 @@ theorem scan_sim (t : Tables) (s : Scanner) (w : WF t) (ps : PackSpec t s) :
       omega
     obtain ⟨x, hx1, hx2, hxS⟩ := hcell q (symN t b.toNat) hq hsymlt
     have hfld := ps.fld b.toNat q hb hq
+    rw [hcls] at hfld
     unfold cellVal at hfld
     rw [hnn, hx2, field_eq_mod] at hfld
     have hsh : st &&& 63 = q * 6 := by rw [and63]; omega
@@ -680,7 +710,12 @@ theorem packWith_agrees (guard : Int) (t : Tables) (s : Scanner)
     (hwf : t.wf = true) (h : packWith guard t = .ok s) (input : List UInt8) :
     lexScanBytes t 0 input = some ((s.scan input).1, ((s.scan input).2 : Int)) := by
   have w := wf_of_wf t hwf
-  have ps := packWith_spec guard t s hg w h
+  have ps := packWith_spec guard t s w h
+  have hl : ∀ e, t.symbolMap.back? = some e → e.start ≤ 0x80 := by
+    intro e he
+    rcases hg with hg | hg
+    · have := ps.last_le e he; omega
+    · exact hg e he
   unfold lexScanBytes lexScanChars
   have h0 : getI t.stateMap 0 = some 0 := by
     unfold getI; simpa using ps.start0
@@ -691,9 +726,25 @@ theorem packWith_agrees (guard : Int) (t : Tables) (s : Scanner)
     have h2 : t.stateMap[0] = 0 := (Array.getElem?_eq_some_iff.mp ps.start0).2
     rw [h2] at h1
     omega
-  have := scan_sim t s w ps input 0 0 0 hq (by omega)
+  have := scan_sim guard t s w ps (packCls_eq_symN t w hl) input 0 0 0 hq (by omega)
   simp only [Nat.zero_add] at this
   rw [scan_eq_fin]
   exact this
+
+/-- If field 0 of the row of the first byte is an (odd) action code `v`, `Scan` stops there:
+it returns size 0 and token `v / 2`. -/
+theorem scan_first_odd (d : Scanner) (b : UInt8) (rest : List UInt8) (v : Nat)
+    (h : field 0 (d.table.getD b.toNat 0) = v) (hodd : v % 2 = 1) :
+    d.scan (b :: rest) = (0, v % 256 / 2) := by
+  rw [field_eq_mod] at h
+  simp only [Nat.zero_mul, Nat.shiftRight_zero] at h
+  unfold Scanner.scan
+  have h0 : (0 : Nat) &&& 1 = 0 := by decide
+  have h1 : (0 : Nat) &&& 63 = 0 := by decide
+  rw [Scanner.scanLoop]
+  simp only [h0, h1, if_true, Nat.shiftRight_zero]
+  rw [scanLoop_odd d rest (0 + 1) _ (by omega)]
+  have hne : ¬ d.table.getD b.toNat 0 &&& 1 = 0 := by rw [Nat.and_one_is_mod]; omega
+  simp only [hne, if_false, and63, h]
 
 end TmVerif.ShiftDfa
